@@ -27,7 +27,7 @@ prop("C20",
      assumptions=["verify (pub s) m (sign s m) = true", "length s = 32 -> length (pub s) = 32",
                   "a random source is modelled as the finite byte string it delivers before failing"])
 
-SRC_DEPS = ["GoSem.v", "GeneratedFn.v", "GenFnProofs.v", "SourceLevelProofs.v", "GenFnSetProofs.v", "SourceLevelSetProofs.v", "GenFnEvalProofs.v", "SourceLevelEvalProofs.v", "SourceLevelEvalClosedProofs.v", "DEval.v", "DEvalProofs.v", "DTerm.v", "Symbols.v", "SymbolsProofs.v"]
+SRC_DEPS = ["GoSem.v", "GeneratedFn.v", "GenFnProofs.v", "SourceLevelProofs.v", "GenFnSetProofs.v", "SourceLevelSetProofs.v", "GenFnEvalProofs.v", "SourceLevelEvalProofs.v", "SourceLevelEvalClosedProofs.v", "GenFnEvalStaticProofs.v", "SourceLevelEvalStaticProofs.v", "SourceLevelEvalStaticClosedProofs.v", "DEval.v", "DEvalProofs.v", "DTerm.v", "Symbols.v", "SymbolsProofs.v"]
 SRC_TRUSTED = "source translator /verif/genfn (go/parser, go/ast; its own type inference; documented subset in notes/GENFN.md): trusted to translate the Go text of datalog/symbol.go, of the operator Eval functions and of the stack machine (*Expression).Evaluate (with stack.Push/Pop and the dispatch over the implementors of Op, UnaryOpFunc, BinaryOpFunc) of datalog/expressions.go into the Gallina definitions of coq/GeneratedFn.v over the prelude Model/GoSem.v (fixed-width arithmetic made explicit, index out of range = Panic outcome, math/big = Z, strings/regexp calls = the model's byte-string functions and the rx oracle, error values = error classes); slice capacity and aliasing are not in that translation"
 prop("C06", source_level=True,
      coq_deps=["Base.v", "Term.v", "Expr.v", "Corr.v", "ExprProofs.v", "TableProofs.v", "Generated.v"] + SRC_DEPS,
@@ -41,6 +41,8 @@ prop("C06", source_level=True,
                "C06_source_arith_exact", "C06_source_never_wrapped", "C06_source_arith_no_panic",
                "C06_source_evaluate_is_model", "C06_source_evaluate_total", "C06_source_evaluate_malformed_is_error",
                "C06_source_evaluate_never_wrapped", "C06_source_set_operators_are_model",
+               "C06_source_evaluate_is_model_static", "C06_source_evaluate_total_static", "C06_source_evaluate_malformed_is_error_static",
+               "C06_source_evaluate_result_in_range_static",
                "C06_source_equal", "C06_source_contains", "C06_source_contains_set", "C06_source_intersection", "C06_source_union",
                "C06_source_term_equal", "C06_source_set_equal", "C06_source_set_contains", "C06_source_set_intersect", "C06_source_set_union",
                "C06_source_intersection_spec", "C06_source_union_spec", "C06_source_set_ops_no_repeats", "C06_source_set_ops_no_panic",
@@ -53,7 +55,8 @@ prop("C06", source_level=True,
      assumptions=["every error other than DivZero/Overflow/Regex/UnknownVar is one class (IllTyped) in the model and in the comparison",
                   "source-level theorems (Properties/C06_source_level.v): operands in the ranges of the Go types (wf_dterm: int64, uint64, uint32), "
                   "OFFSET + len(table) + 1 below 2^63 where the source computes it in int (table_fits); the stack machine Evaluate is translated and PROVED equal to the index-level model eval_D for every op sequence and all bindings "
-                  "(Properties/C06_source_level_eval.v) under run_pre (the operands met during the run stay in the ranges of the Go types; exact and decidable on concrete inputs) "
+                  "(Properties/C06_source_level_eval.v) under run_pre (the operands met during the run stay in the ranges of the Go types; exact and decidable on concrete inputs), "
+                  "and under the STATIC condition static_pre t e b on the inputs alone (Properties/C06_source_level_eval_static.v: constants and looked-up bindings in range, every table string / byte array / set of size <= B, B * 2^(number of Add and Union ops) < 2^63, table length + that number + 1025 < 2^63; static_pre implies run_pre) "
                   "; Equal, Contains, Intersection, Union and the Set / Term Equal methods are proved equal to the model for all operands (Properties/C06_source_level_sets.v; only Contains on two strings needs the ranges), which discharges the premise set_ops_eq of the Evaluate theorems (C06_source_set_operators_are_model); a Set nested in a Set is not represented (the converters refuse it); "
                   "a map[Variable]*Term holds non-nil pointers; "
                   "the regex oracle is assumed uniform in the subject for compile failures (rx_uniform)"])
